@@ -133,7 +133,7 @@ func pagerLastIndexGuard(ia *ssa.IndexAddr, at ssa.Instruction) (bool, string) {
 	}
 	_ = ok
 	for _, cd := range facts.CondsAt(at.Block()) {
-		x, op, y, okc := facts.Cmp(cd)
+		x, op, y, okc := cmpLenFirst(cd)
 		if !okc || op != token.GEQ {
 			continue
 		}
